@@ -213,6 +213,27 @@ fn search(unit: &str, depth: usize) -> Value {
                 }
             }
         }
+        // fixed-width char blocks: strings of length 0..=width in every combination, every skip, batches 1..3
+        "charblock" => {
+            let width = 3usize;
+            let alphabet = ["", "a", "bc", "def"];
+            let n = depth + 3;
+            let total = (alphabet.len() as u32).pow(n as u32);
+            for code in 0..total {
+                let mut c = code;
+                let items: Vec<String> = (0..n).map(|_| { let s = alphabet[(c % 4) as usize].to_string(); c /= 4; s }).collect();
+                for skip in 0..=n {
+                    for batch in 1..=3 {
+                        tried += 1;
+                        let want: Vec<Option<String>> = items[skip..].iter().map(|x| Some(x.clone())).collect();
+                        match h::char_block_read(&items, width, skip, batch) {
+                            Ok(out) if out == want => {}
+                            other => return json!({"found": true, "tried": tried, "input": {"items": items, "char_width": width, "skip": skip, "batch": batch}, "observed": format!("{other:?}")}),
+                        }
+                    }
+                }
+            }
+        }
         "varint" => {
             for v in (0u32..300).chain([0x3FFF, 0x4000, 0x1F_FFFF, 0x20_0000, 0xFFF_FFFF, 0x1000_0000, 0xEFFF_FFFF, 0xF000_0000, u32::MAX]) {
                 tried += 1;
